@@ -60,9 +60,10 @@ theorem C01_content_value (cfg : ECfg) (al : List (Str × Val)) (f id : Nat) (ex
     (hv : enVal cfg ((lit "default", Val.dflt) :: al) (.value expr) s = .ok v s1)
     (hnd : Val.pyIs v .dflt = .ok false) (hne : ∀ c, v ≠ .excClass c) (hq : toQIn cfg v = .ok q) :
     eval cfg al (f + 6) (makeContentNode id expr (some d) st false) s =
-      (match (if !st then quoteVal Site.content.q Site.content.qe none q else convertVal q) with
-       | some t => emit t
-       | none => pure ()) (cacheSet id v s1) := by
+      (liftX (fun env => offerCall cfg env v) >>= fun _ =>
+        match (if !st then quoteVal Site.content.q Site.content.qe none q else convertVal q) with
+        | some t => emit t
+        | none => pure ()) (cacheSet id v s1) := by
   simp only [makeContentNode, eval, evalDefine]
   have hforM : ∀ (g : Nat × EN → RM Unit) (x : Nat × EN), [x].forM g = (g x >>= fun _ => pure ()) := fun _ _ => rfl
   have hpure : ∀ (t : RState), (pure () : RM Unit) t = .ok () t := fun _ => rfl
@@ -72,7 +73,11 @@ theorem C01_content_value (cfg : ECfg) (al : List (Str × Val)) (f id : Nat) (ex
   have href : enVal cfg ((lit "default", Val.dflt) :: al) (.ref id) (cacheSet id v s1) = .ok v (cacheSet id v s1) := by
     simp [enVal, liftX, evalEN, getCached_cacheSet]
   simp only [href, hq]
-  cases (if (!st) = true then quoteVal Site.content.q Site.content.qe none q else convertVal q) <;> rfl
+  cases liftX (fun env => offerCall cfg env v) (cacheSet id v s1) with
+  | ok u s2 => cases (if (!st) = true then quoteVal Site.content.q Site.content.qe none q else convertVal q) <;>
+      (simp only []; first | rfl | (cases emit _ s2 <;> rfl))
+  | raised ex s2 => rfl
+  | unsupported w => rfl
 
 /-- **C01 (`None` removes)**: if the expression evaluates to `None` (`nothing`), nothing is emitted: the output stack is
 what it was after evaluating the expression, and the original content is not evaluated -/
